@@ -70,11 +70,11 @@ Theorem C05_closure_fails_only_after_cut : forall n sep omitsep e f c,
          e sep omitsep (push (set_cst (push f) (VList false []))) tt) = Fail true.
 Proof. exact (peval_closure_never_plain_fail text re_at isalnum isalpha lower upper ic unsafe rules ec act lineat). Qed.
 
-(* containment: rule calls, choices, optionals, repetitions, lookaheads and skip groups never change the
+(* containment: rule calls, choices, optionals, repetitions, left / right joins, lookaheads and skip groups never change the
    caller's cut flag, and report failure with the caller's flag - so callers and outer choices backtrack
    exactly as if the inner construct contained no cut *)
 Theorem C05_contained : forall n e f,
-  (match e with Call _ | Choice _ | Opt _ | Rep _ _ _ _ | Look _ _ | SkipGroup _ => True | _ => False end) ->
+  (match e with Call _ | Choice _ | Opt _ | Rep _ _ _ _ | Look _ _ | SkipGroup _ | Assoc _ _ => True | _ => False end) ->
   match peval' (S n) e f with
   | Ok _ f' => cutseen f' = cutseen f
   | Fail c => c = cutseen f
